@@ -210,6 +210,7 @@ func runC09(c *core.Ctx) core.Meta {
 
 	// ---------------- R09.2 / R09.3 / R09.4 dispatcher ----------------
 	RunProto(c, &ProtoCfg{
+		AllEffectsAfterSend: true,
 		RuleBase: "R09.2", Pkg: dispPkg, FloorSends: 2,
 		Effects: []Effect{
 			RetrieveEffect,
